@@ -2,16 +2,19 @@ CHECK = {
     "suites": [suite("allocate", "c03", 6000, 600000, stdin=True),
                suite("raw", "c03", 2500, 120000, stdin=True, args=["-suite", "raw"]),
                suite("block", "c03", 2000, 80000, stdin=True, args=["-suite", "block"]),
-               suite("seq", "c03", 2500, 100000, stdin=True, args=["-suite", "seq"])],
+               suite("seq", "c03", 2500, 100000, stdin=True, args=["-suite", "seq"]),
+               suite("hist", "c03", 2000, 80000, stdin=True, args=["-suite", "hist"])],
     "gen": [{"pkg": "extract_c03", "out": "lean/ClusterVerif/Gen/C03.lean"}],
     "lean_sources": ["ClusterVerif/Model/C03Skeleton.lean", "ClusterVerif/Gen/C03.lean", "ClusterVerif/Model/C03.lean", "ClusterVerif/Spec/C03.lean", "ClusterVerif/Lemmas/C03.lean", "ClusterVerif/Lemmas/C03Sort.lean",
                      "ClusterVerif/Model/C03Pipeline.lean", "ClusterVerif/Lemmas/C03Pipeline.lean", "ClusterVerif/Model/C03Block.lean",
-                     "ClusterVerif/Lemmas/C03Block.lean", "ClusterVerif/Spec/C03Block.lean", "ClusterVerif/Model/C03Alloc.lean", "ClusterVerif/Lemmas/C03Alloc.lean", "ClusterVerif/Model/C04.lean", "ClusterVerif/Model/Pin.lean"],
+                     "ClusterVerif/Lemmas/C03Block.lean", "ClusterVerif/Spec/C03Block.lean", "ClusterVerif/Model/C03Alloc.lean", "ClusterVerif/Lemmas/C03Alloc.lean", "ClusterVerif/Model/C03Wiring.lean", "ClusterVerif/Model/C04.lean", "ClusterVerif/Model/Pin.lean"],
     "rule": "cases = (strategy, factor pair, 0-8 peers each in one of 5 metric states, current/exclusion/priority lists) "
             "drawn from one splitmix64 stream per case index; suite raw: 0-14 raw metric arrivals (3 names, members and non-members, invalid/expired/non-numeric, repeats in any order) "
             "+ peerset view (none / failing / members) through the real pubsubmon.Monitor; suite block: BlockAllocate requests (cid.Undef via adder.BlockAllocate, stored entry, factors, expiry, "
             "user allocations, follower, ping states); suite seq: three-step histories on one CID through the real Cluster.pin and vacatePeer->repinFromPeer "
-            "(pin; pin again under another name = re-allocation from the stored pin; a peer's metric replaced by valid/expired/invalid/non-numeric and the peer vacated); non-trivial = positive factors or everywhere (-1,-1); distinct by case line",
+            "(pin; pin again under another name = re-allocation from the stored pin; a peer's metric replaced by valid/expired/invalid/non-numeric and the peer vacated); "
+            "suite hist: whole histories (4-25 ops) over up to 3 CIDs and 2-7 peers through the real Cluster.pin / vacatePeer / unpin with any number of metrics changing, expiring or appearing between the steps "
+            "and a decoy second informer (reversed ranking, valid for everybody) in the informer list, replayed step by step on the Lean history model (hstep); non-trivial = positive factors or everywhere (-1,-1); distinct by case line",
     "trusted_base": ["suites allocate/block: metrics.Store-backed monitor stands in for pubsubmon (LatestValid is the real code); suite raw: the real pubsubmon.Monitor fed through LogMetric",
                      "verif_export.go wrappers (VerifNewCluster, VerifAllocate)"],
     "assumptions": ["time does not advance between LatestMetrics and the second Discard() test in SortNumeric",
@@ -32,7 +35,14 @@ META = {
             "(allocate_interprets_gen for all inputs; swapped concatenation / direction / call arguments / a forgotten group refuted with witnesses; repin_input: the failed peer is the exclusion list, "
             "the stored holders the current ones); stable_of_count / allocate_idempotent (any admitted allocation is a fixed point of re-allocation under the same metrics, whatever the priority list); "
             "blacklisted_only_kept_verbatim (an excluded peer survives only in the verbatim stored list with min other healthy holders); holds_ok_iff / holds_err_iff / holds_everywhere_iff give the "
-            "Prop-level reading of the Bool checker; suite seq drives pin -> re-pin -> vacatePeer histories through the real callers and checks every step (incl. stability and 'a failed re-pin changes nothing').",
+            "Prop-level reading of the Bool checker; suite seq drives pin -> re-pin -> vacatePeer histories through the real callers and checks every step (incl. stability and 'a failed re-pin changes nothing'). "
+            "Round 8b: ClusterRPCAPI.BlockAllocate is a regenerated STRUCTURE too (prologue, which field the everywhere guard tests, which metric the everywhere arm reads, which expression goes to which parameter of allocate()) "
+            "interpreted by the model (block_allocate_interprets_gen for all inputs; block_allocate_is_allocate: its answer is allocate()'s answer on the property's input; nil current pin / dropped user allocations / swapped factors / "
+            "allocation metric instead of ping refuted with witnesses; an unexpected statement such as a short-cut makes the interpretation undefined); the daemon's wiring (cmd/ipfs-cluster-service/daemon.go: informer and allocator built and "
+            "handed to NewCluster, the index of the informer whose metric allocate() asks for, the disk informer's default metric and its arithmetic) is regenerated and daemon_pairing_least_loaded_first / least_loaded_first_reading prove the shipped "
+            "pair ranks less loaded peers first (swapped allocator, numpin+descend, a reordered informer list refuted); history_all_decisions_hold: by induction over ANY history of metric/peerset changes, strategy switches, pins, "
+            "re-pins away from a failed peer and unpins over any number of CIDs, every decision satisfies every clause for the input at the time it was made and every stored allocation is the answer of such a decision; suite hist drives "
+            "such histories through the real callers.",
     "note": "Trusted: Lean kernel (+propext, Classical.choice, Quot.sound), the hand-written model/spec, the Go harness and its store-backed monitor, "
             "verif_export.go wrappers. A non-numeric metric is treated as unusable for new allocations.",
     "technique": "Lean 4 theorem over relational model + regenerated source skeleton checked by decide + differential correspondence with the real allocate()",
